@@ -12,27 +12,34 @@
    Names are in encoded form (bytes as stored; Shift-JIS in CTPK, UTF-8 in BCH/CGFX; TPL stores none).
    All four parsers are proved (none is `_partial`). *)
 From Coq Require Import List NArith Bool.
-From Mila Require Import Lib.Bytes Lib.Machine Model.Pixel Model.Etc1 Model.TexCommon Model.TexFormat
+From Mila Require Import Lib.Bytes Lib.Machine Model.Pixel Model.PixelSpec Model.Etc1 Model.TexCommon Model.TexFormat
   Model.Ctpk Model.Bch Model.Cgfx Model.Tpl
-  Proofs.TexBase Proofs.TexMagic Proofs.TexCtpk Proofs.TexTpl Proofs.TexBch Proofs.TexCgfx Proofs.TexDecode Proofs.TexStatements.
+  Proofs.TexBase Proofs.TexMagic Proofs.TexCtpk Proofs.TexTpl Proofs.TexBch Proofs.TexCgfx Proofs.TexDecode Proofs.TexStatements Proofs.TexCgfxBackward Proofs.TexExamples.
 Import ListNotations.
 Local Open Scope N_scope.
 
 (* ---------------------------------------------------------------- reading a conforming container
    Same number of textures, same order, same names (where stored), same dimensions, and the pixel data of
    each texture is the decoding of that texture's own payload: the result IS the list of the per-texture
-   decodings (decode_all stops at the first texture whose decoding fails, as the readers do). *)
-Theorem C20_read_ctpk : forall m f texs, conforms_ctpk f texs -> read_ctpk m f = decode_all (decode_tex m) texs.
+   decodings (decode_all stops at the first texture whose decoding fails, as the readers do).
+   CTPK and BCH compute the number of payload bytes as `(bpp * w as f32 * h as f32) as usize`; the models carry the
+   binary32 rounding (payload_size32), and the hypothesis [f32_exact t] says that this request equals the true payload
+   size bpp*w*h.  It holds for every payload below 8 MiB and for power-of-two sides of any size (C20_f32_exact_small,
+   C20_f32_exact_pow2) and fails e.g. for a 4097 x 4099 L4 texture (C20_f32_inexact_witness: the reader asks for one byte
+   too many).  CGFX stores the size in the file and TPL computes it in integers: no such hypothesis there. *)
+Theorem C20_read_ctpk : forall m f texs, conforms_ctpk f texs -> Forall f32_exact texs ->
+  read_ctpk m f = decode_all (decode_tex m) texs.
 Proof. exact read_ctpk_correct. Qed.
 Theorem C20_read_tpl : forall m f texs, conforms_tpl f texs -> read_tpl m f = decode_all decode_tpl_tex texs.
 Proof. exact read_tpl_correct. Qed.
-Theorem C20_read_bch : forall m f texs, conforms_bch f texs -> read_bch m f = decode_all (decode_tex m) texs.
+Theorem C20_read_bch : forall m f texs, conforms_bch f texs -> Forall f32_exact texs ->
+  read_bch m f = decode_all (decode_tex m) texs.
 Proof. exact read_bch_correct. Qed.
 Theorem C20_read_cgfx : forall m f texs, conforms_cgfx f texs -> read_cgfx m f = decode_all (decode_tex m) texs.
 Proof. exact read_cgfx_correct. Qed.
 
 (* On the supported textures (the formats of C19: RGBA8, RGBA5551, RGB565, RGBA4, LA8, L8, A8 with sides that are
-   multiples of 8, ETC1 and ETC1A4 with power-of-two sides >= 8; CI8 images whose indices lie in their RGB5A3 palette) every decoding
+   multiples of 8, ETC1 and ETC1A4 with power-of-two sides >= 8; CI8 images whose visible pixels index into their RGB5A3 palette; the block padding is free) every decoding
    succeeds with the same pixels in both arithmetic modes, so the readers return exactly map decoded texs. *)
 Theorem C20_decode_supported : forall m t, supported3ds t -> decode_tex m t = Ok (decoded t).
 Proof. exact decode_tex_supported. Qed.
@@ -43,20 +50,77 @@ Proof. exact decode_all_supported. Qed.
 Theorem C20_decode_all_supported_tpl : forall ts, Forall supportedtpl ts -> decode_all decode_tpl_tex ts = Ok (map tpl_decoded ts).
 Proof. exact decode_all_tpl_supported. Qed.
 
+(* the f32 payload-size request of ctpk.rs / bch.rs: when it is exact, and that it is not always *)
+Theorem C20_f32_exact_small : forall t, bpp2 (t_fmt t) * t_w t * t_h t < 2 ^ 24 -> f32_exact t.
+Proof. exact f32_exact_small. Qed.
+Theorem C20_f32_exact_pow2 : forall t a b, t_w t = 8 * 2 ^ a -> t_h t = 8 * 2 ^ b -> f32_exact t.
+Proof. exact f32_exact_pow2. Qed.
+Theorem C20_f32_inexact_witness : payload_size 10 4097 4099 = 8396801 /\ payload_size32 10 4097 4099 = 8396802.
+Proof. exact f32_inexact_witness. Qed.
+
 (* hence, in the wording of the property: reading a conforming container of supported textures returns the
    textures in order, [decoded t] = (name of t, width, height, pixels of t's own payload), in both modes *)
-Theorem C20_read_ctpk_supported : forall m f texs, conforms_ctpk f texs -> Forall supported3ds texs ->
+Theorem C20_read_ctpk_supported : forall m f texs, conforms_ctpk f texs -> Forall supported3ds_f32 texs ->
   read_ctpk m f = Ok (map decoded texs).
 Proof. exact read_ctpk_supported. Qed.
 Theorem C20_read_tpl_supported : forall m f texs, conforms_tpl f texs -> Forall supportedtpl texs ->
   read_tpl m f = Ok (map tpl_decoded texs).
 Proof. exact read_tpl_supported. Qed.
-Theorem C20_read_bch_supported : forall m f texs, conforms_bch f texs -> Forall supported3ds texs ->
+Theorem C20_read_bch_supported : forall m f texs, conforms_bch f texs -> Forall supported3ds_f32 texs ->
   read_bch m f = Ok (map decoded texs).
 Proof. exact read_bch_supported. Qed.
 Theorem C20_read_cgfx_supported : forall m f texs, conforms_cgfx f texs -> Forall supported3ds texs ->
   read_cgfx m f = Ok (map decoded texs).
 Proof. exact read_cgfx_supported. Qed.
+
+(* C20 composed with C19: pixel (X, Y) of texture i of a conforming container, read from the payload bytes of texture i:
+   colour formats - decode_color of the element at the tiled (Morton) index (C19_pixel_source); TPL - the decoded RGB5A3
+   palette entry selected by the block-data byte at ci8_index (C19_palette) *)
+Theorem C20_pixel_ctpk : forall m f texs i t X Y, conforms_ctpk f texs -> Forall supported3ds_f32 texs ->
+  nth_error texs i = Some t -> listed_color_format (t_fmt t) = true -> X < t_w t -> Y < t_h t ->
+  exists out px, read_ctpk m f = Ok out /\
+    nth_error out i = Some (mkTexture (t_name t) (t_w t) (t_h t) (flatten px)) /\
+    length px = N.to_nat (t_w t * t_h t) /\
+    nth_error px (N.to_nat (Y * t_w t + X)) =
+      Some (decode_color (element (bytes_per_element (t_fmt t)) (t_data t) (tiled_index (t_w t) X Y)) (t_fmt t)).
+Proof. exact ctpk_pixel. Qed.
+Theorem C20_pixel_bch : forall m f texs i t X Y, conforms_bch f texs -> Forall supported3ds_f32 texs ->
+  nth_error texs i = Some t -> listed_color_format (t_fmt t) = true -> X < t_w t -> Y < t_h t ->
+  exists out px, read_bch m f = Ok out /\
+    nth_error out i = Some (mkTexture (t_name t) (t_w t) (t_h t) (flatten px)) /\
+    length px = N.to_nat (t_w t * t_h t) /\
+    nth_error px (N.to_nat (Y * t_w t + X)) =
+      Some (decode_color (element (bytes_per_element (t_fmt t)) (t_data t) (tiled_index (t_w t) X Y)) (t_fmt t)).
+Proof. exact bch_pixel. Qed.
+Theorem C20_pixel_cgfx : forall m f texs i t X Y, conforms_cgfx f texs -> Forall supported3ds texs ->
+  nth_error texs i = Some t -> listed_color_format (t_fmt t) = true -> X < t_w t -> Y < t_h t ->
+  exists out px, read_cgfx m f = Ok out /\
+    nth_error out i = Some (mkTexture (t_name t) (t_w t) (t_h t) (flatten px)) /\
+    length px = N.to_nat (t_w t * t_h t) /\
+    nth_error px (N.to_nat (Y * t_w t + X)) =
+      Some (decode_color (element (bytes_per_element (t_fmt t)) (t_data t) (tiled_index (t_w t) X Y)) (t_fmt t)).
+Proof. exact cgfx_pixel. Qed.
+Theorem C20_pixel_tpl : forall m f texs i t x y, conforms_tpl f texs -> Forall supportedtpl texs ->
+  nth_error texs i = Some t -> x < t_w t -> y < t_h t ->
+  exists out px, read_tpl m f = Ok out /\
+    nth_error out i = Some (mkTexture [] (t_w t) (t_h t) (flatten px)) /\
+    length px = N.to_nat (t_w t * t_h t) /\
+    nth_error px (N.to_nat (y * t_w t + x)) =
+      Some (decode_rgb5a3_pixel (be16_at (t_pal t) (nth (N.to_nat (ci8_index (t_w t) x y)) (t_data t) 0))).
+Proof. exact tpl_pixel. Qed.
+
+(* CGFX offsets are self-relative modulo 2^32: a payload, name or TXOB may lie in FRONT of the field that refers to it
+   (conforms_cgfx admits it; C20_read_cgfx / C20_prefix_cgfx cover it in both modes).  Finding F23: before the repair the
+   sum was a plain u32 `+`, which panics in a checked build on such a file and wraps to the right answer in release. *)
+Theorem C20_cgfx_backward_F23 :
+  conforms_cgfx back_cgfx [back_tex] /\
+  read_cgfx_unrepaired Checked back_cgfx = Panic POverflow /\
+  read_cgfx_unrepaired Wrapping back_cgfx = Ok [decoded back_tex].
+Proof. exact cgfx_backward_unrepaired_panics. Qed.
+Example C20_cgfx_backward_example :
+  (cgfx_payload_at back_cgfx 0 161 /\ selfrel back_cgfx 40 301 /\ selfrel back_cgfx (301 + 28 + 12) 225 /\ 161 < 225) /\
+  read_cgfx Checked back_cgfx = Ok [decoded back_tex] /\ read_cgfx Wrapping back_cgfx = Ok [decoded back_tex].
+Proof. split; [exact back_is_backward | exact back_read]. Qed.
 
 (* ---------------------------------------------------------------- wrong magic number (BCH, CGFX, TPL) *)
 Theorem C20_bad_magic_bch : forall m f v, u32_at LE f 0 = Some v -> v <> BCH_MAGIC -> read_bch m f = Err EBadMagic.
@@ -78,13 +142,13 @@ Proof. exact bad_magic_rejected. Qed.
    the file's own tables locate it: *_payload_at) is not empty and does not end before k.
    Hypothesis on the textures: decoding their own payload does not panic (true for every supported texture,
    C20_supported_no_panic; for TPL it holds for every texture, so the theorem has no such hypothesis). *)
-Theorem C20_prefix_ctpk : forall m f texs k, conforms_ctpk f texs ->
+Theorem C20_prefix_ctpk : forall m f texs k, conforms_ctpk f texs -> Forall f32_exact texs ->
   Forall (fun t => no_panic (decode_tex m t)) texs -> k < lenN f ->
   no_panic (read_ctpk m (firstn (N.to_nat k) f)) /\
   (forall i t off, nth_error texs i = Some t -> ctpk_payload_at f (N.of_nat i) off -> cuts k off (t_data t) ->
      is_err (read_ctpk m (firstn (N.to_nat k) f))).
 Proof. exact ctpk_prefix. Qed.
-Theorem C20_prefix_bch : forall m f texs k, conforms_bch f texs ->
+Theorem C20_prefix_bch : forall m f texs k, conforms_bch f texs -> Forall f32_exact texs ->
   Forall (fun t => no_panic (decode_tex m t)) texs -> k < lenN f ->
   no_panic (read_bch m (firstn (N.to_nat k) f)) /\
   (forall i t off, nth_error texs i = Some t -> bch_payload_at f (N.of_nat i) off -> cuts k off (t_data t) ->
@@ -107,12 +171,12 @@ Proof. exact supported_no_panic. Qed.
 
 (* the same for containers of supported textures, in the wording of the property: never a Panic, and an Err
    whenever the cut removes part of a texture payload *)
-Theorem C20_prefix_ctpk_supported : forall m f texs k, conforms_ctpk f texs -> Forall supported3ds texs -> k < lenN f ->
+Theorem C20_prefix_ctpk_supported : forall m f texs k, conforms_ctpk f texs -> Forall supported3ds_f32 texs -> k < lenN f ->
   (forall p, read_ctpk m (firstn (N.to_nat k) f) <> Panic p) /\
   (forall i t off, nth_error texs i = Some t -> ctpk_payload_at f (N.of_nat i) off -> cuts k off (t_data t) ->
      exists e, read_ctpk m (firstn (N.to_nat k) f) = Err e).
 Proof. exact ctpk_prefix_supported. Qed.
-Theorem C20_prefix_bch_supported : forall m f texs k, conforms_bch f texs -> Forall supported3ds texs -> k < lenN f ->
+Theorem C20_prefix_bch_supported : forall m f texs k, conforms_bch f texs -> Forall supported3ds_f32 texs -> k < lenN f ->
   (forall p, read_bch m (firstn (N.to_nat k) f) <> Panic p) /\
   (forall i t off, nth_error texs i = Some t -> bch_payload_at f (N.of_nat i) off -> cuts k off (t_data t) ->
      exists e, read_bch m (firstn (N.to_nat k) f) = Err e).
@@ -208,13 +272,39 @@ Example C20_tpl_example :
 Proof. split; [apply conforms_tplb_sound; vm_compute; reflexivity|]. vm_compute; reflexivity. Qed.
 
 (* the example textures are supported: 8x8 L8 (format 7); a 4x3 CI8 image over a four-colour palette *)
-Example C20_examples_supported : supported3ds ex_ctpk_tex /\ supported3ds ex_bch_tex /\ supportedtpl ex_tpl_tex.
+Example C20_examples_supported : supported3ds_f32 ex_ctpk_tex /\ supported3ds_f32 ex_bch_tex /\ supportedtpl ex_tpl_tex.
 Proof.
   split; [|split].
-  - split; [left; repeat split; reflexivity|]. split; reflexivity.
-  - split; [left; repeat split; reflexivity|]. split; reflexivity.
-  - split; [reflexivity|]. split; [reflexivity|]. repeat constructor.
+  - split; [|reflexivity]. split; [left; repeat split; reflexivity|]. split; reflexivity.
+  - split; [|reflexivity]. split; [left; repeat split; reflexivity|]. split; reflexivity.
+  - split; [cbn; discriminate|]. split; [cbn; discriminate|]. split; [reflexivity|]. split; [reflexivity|].
+    intros x y Hx Hy. cbn [ex_tpl_tex t_w t_h] in Hx, Hy.
+    assert (Cx : x = 0 \/ x = 1 \/ x = 2 \/ x = 3) by (clear - Hx; destruct x as [|[[[]|[]|]|[[]|[]|]|]]; try (vm_compute in Hx; discriminate); auto).
+    assert (Cy : y = 0 \/ y = 1 \/ y = 2) by (clear - Hy; destruct y as [|[[[]|[]|]|[[]|[]|]|]]; try (vm_compute in Hy; discriminate); auto).
+    destruct Cx as [->|[->|[->| ->]]]; destruct Cy as [->|[->| ->]]; vm_compute; reflexivity.
 Qed.
+
+(* containers with no texture and with several textures of different formats (Proofs/TexExamples.v): RGBA8 8x8 + RGB565 16x8 +
+   ETC1 8x8 in CTPK / BCH / CGFX (the CGFX one with backward offsets), CI8 4x3 + 9x5 in TPL (junk indices in the padding) *)
+Example C20_examples_many :
+  conforms_ctpk mx_ctpk [mx_ctpk_t0; mx_ctpk_t1; mx_ctpk_t2] /\ conforms_ctpk mx_ctpk_empty [] /\
+  conforms_bch mx_bch [mx_bch_t0; mx_bch_t1; mx_bch_t2] /\ conforms_bch mx_bch_empty [] /\
+  conforms_cgfx mx_cgfx [mx_cgfx_t0; mx_cgfx_t1; mx_cgfx_t2] /\ conforms_cgfx mx_cgfx_empty [] /\
+  conforms_tpl mx_tpl [mx_tpl_t0; mx_tpl_t1] /\ conforms_tpl mx_tpl_empty [].
+Proof. exact mx_conform. Qed.
+Example C20_examples_many_supported :
+  Forall supported3ds_f32 [mx_ctpk_t0; mx_ctpk_t1; mx_ctpk_t2] /\ Forall supported3ds_f32 [mx_bch_t0; mx_bch_t1; mx_bch_t2] /\
+  Forall supported3ds [mx_cgfx_t0; mx_cgfx_t1; mx_cgfx_t2].
+Proof. exact mx_3ds_supported. Qed.
+Example C20_examples_many_supported_tpl :
+  Forall supportedtpl [mx_tpl_t0; mx_tpl_t1] /\ In 200 (t_data mx_tpl_t1) /\ lenN (t_pal mx_tpl_t1) / 2 = 3.
+Proof. split; [exact mx_tpl_supported | exact mx_tpl_padding_junk]. Qed.
+Example C20_examples_many_read :
+  read_ctpk Checked mx_ctpk = Ok (map decoded [mx_ctpk_t0; mx_ctpk_t1; mx_ctpk_t2]) /\ read_ctpk Wrapping mx_ctpk_empty = Ok [] /\
+  read_bch Checked mx_bch = Ok (map decoded [mx_bch_t0; mx_bch_t1; mx_bch_t2]) /\ read_bch Wrapping mx_bch_empty = Ok [] /\
+  read_cgfx Checked mx_cgfx = Ok (map decoded [mx_cgfx_t0; mx_cgfx_t1; mx_cgfx_t2]) /\ read_cgfx Wrapping mx_cgfx_empty = Ok [] /\
+  read_tpl Checked mx_tpl = Ok (map tpl_decoded [mx_tpl_t0; mx_tpl_t1]) /\ read_tpl Wrapping mx_tpl_empty = Ok [].
+Proof. exact mx_read. Qed.
 
 (* prefixes of the CTPK example (payload at 67..131, the name behind it at 133): a cut inside the payload is
    rejected; a cut inside the name is accepted with a shorter name or rejected as malformed text *)
